@@ -13,6 +13,9 @@ def table_lines(g, pats, hosts):
         out.append("route add %s %s %s" % (hx(proto), hx(p), hx(hop)))
     for h in hosts:
         out.append("route find %s" % hx(h))
+    # second pass in another order: the answer for a host must not depend on what was looked up in between
+    for h in reversed(hosts):
+        out.append("route find %s" % hx(h))
     return out
 
 def generate(seed, tier):
@@ -33,6 +36,12 @@ def generate(seed, tier):
         g.count("random_tables")
     # next-hop strings with/without port, for udp/tcp/tls
     for proto in ["udp", "tcp", "tls", "TLS", "Tls", "sctp"]:
-        for hop in ["h", "h:5070", "10.1.2.3", "10.1.2.3:1", "h:", "h:x", "h:65535", "[::1]:5060", "a:b:7"]:
-            lines.append("route item %s %s %s" % (hx(proto), hx("d"), hx(hop)))
+        for hop in ["h", "h:5070", "10.1.2.3", "10.1.2.3:1", "h:", "h:x", "h:65535", "[::1]:5060", "a:b:7", "h:5060", "h:5061", "gw.example.org:5060", "10.0.0.1:5061", "h:0", "h:1"]:
+            # expected by the property text: written port wins; omitted -> 5060, or 5061 for tls (any letter case)
+            if ":" in hop:
+                host, port = hop.rsplit(":", 1)
+                exp = "%s %s %s %d" % (hx(proto), hx("d"), hx(host), int(port)) if port.isdigit() else "err"
+            else:
+                exp = "%s %s %s %d" % (hx(proto), hx("d"), hx(hop), 5061 if proto.lower() == "tls" else 5060)
+            lines.append("route item %s %s %s # spec=C18 eq %s" % (hx(proto), hx("d"), hx(hop), exp))
     return lines, g.stats
